@@ -100,6 +100,14 @@ Print Assumptions C11_form_interface_destination.
 
 (* The decoder stays inside the destination: an accepted array keeps its length, the elements
    of an accepted slice are of the element type, a set field keeps its kind and width. *)
+(* struct level: whatever the bytes, a successful decode yields a value of the destination's
+   type - same fields in the same order, leaves of the same kind and width (or untouched),
+   slices of the element type (or untouched), arrays of the same length, recursively. *)
+Theorem C11_form_decode_keeps_type : forall data fs fs',
+  form_unmarshal data (TStruct fs) = Ok (RStruct fs') -> fields_rel fs fs'.
+Proof. exact form_decode_keeps_type_lemma. Qed.
+Print Assumptions C11_form_decode_keeps_type.
+
 Theorem C11_form_decode_array_length : forall elems vals es,
   set_array elems vals = Ok es -> length es = length elems.
 Proof. exact set_array_length. Qed.
